@@ -27,6 +27,7 @@ abbrev mpz_mod (a b : Int) : Int := a % b
 abbrev mpz_mul_2exp (a k : Int) : Option Int := if k < 0 then none else some (a * 2 ^ k.toNat)
 /-- the same with a literal (non-negative) count -/
 abbrev mpz_mul_2exp_lit (a : Int) (k : Nat) : Int := a * 2 ^ k
+abbrev mpz_tdiv_q_2exp (a k : Int) : Int := a.tdiv (2 ^ k.toNat)
 abbrev mpz_fdiv_q_2exp (a k : Int) : Int := a / 2 ^ k.toNat
 abbrev mpz_powm (b e m : Int) : Int := powm b e.toNat m
 abbrev mpz_powm_ui (b e m : Int) : Int := powm b e.toNat m
@@ -51,19 +52,20 @@ abbrev ulShl (x k : Int) : Option Int := if 0 ≤ k ∧ k < 64 then some (x * 2 
 /-- C `x >> k` on a 64-bit unsigned word: undefined for k ∉ [0, 64) -/
 abbrev ulShr (x k : Int) : Option Int := if 0 ≤ k ∧ k < 64 then some (x / 2 ^ k.toNat) else none
 
-/-! ### the ibz layer (wrappers of intbig.c used by integers.c) -/
-abbrev ibz_set (k : Int) : Int := k
-abbrev ibz_copy (a : Int) : Int := a
-abbrev ibz_add (a b : Int) : Int := a + b
-abbrev ibz_sub (a b : Int) : Int := a - b
-abbrev ibz_mul (a b : Int) : Int := a * b
-abbrev ibz_cmp (a b : Int) : Int := (a - b).sign
-abbrev ibz_is_one (a : Int) : Int := if a = 1 then 1 else 0
-abbrev ibz_is_zero (a : Int) : Int := if a = 0 then 1 else 0
+/-! ### the ibz layer (wrappers of intbig.c used by integers.c); `prim_` prefix: the translated wrappers themselves live
+     in SqiGen.Intbig under their C names -/
+abbrev prim_ibz_set (k : Int) : Int := k
+abbrev prim_ibz_copy (a : Int) : Int := a
+abbrev prim_ibz_add (a b : Int) : Int := a + b
+abbrev prim_ibz_sub (a b : Int) : Int := a - b
+abbrev prim_ibz_mul (a b : Int) : Int := a * b
+abbrev prim_ibz_cmp (a b : Int) : Int := (a - b).sign
+abbrev prim_ibz_is_one (a : Int) : Int := if a = 1 then 1 else 0
+abbrev prim_ibz_is_zero (a : Int) : Int := if a = 0 then 1 else 0
 /-- `ibz_sqrt(sqrt, a)` (mpz_perfect_square_p + mpz_sqrt): primitive, modelled by `SqiModel.NumberTheory.ibzSqrt` -/
-abbrev ibz_sqrt (_out a : Int) : Res Int := SqiModel.NumberTheory.ibzSqrt a
+abbrev prim_ibz_sqrt (_out a : Int) : Res Int := SqiModel.NumberTheory.ibzSqrt a
 /-- `ibz_div(q, r, a, b)` = `mpz_tdiv_qr`; division by zero raises SIGFPE -/
-abbrev ibz_div (a b : Int) : Option (Int × Int) := if b = 0 then none else some (a.tdiv b, a.tmod b)
+abbrev prim_ibz_div (a b : Int) : Option (Int × Int) := if b = 0 then none else some (a.tdiv b, a.tmod b)
 
 /-- conversion to `mp_limb_t` / `unsigned long` (wraps modulo 2^64) -/
 abbrev ulOfInt (x : Int) : Int := x % 2 ^ 64
